@@ -81,6 +81,7 @@ type run struct {
 	thin        bool        // client-pause scenario: clients keep only a few commands outstanding ...
 	paused      bool        // ... and stop sending altogether for a while
 	silentAfter hotstuff.ID // scenario: this replica falls silent once the others reach silentView
+	fetchDeaf   hotstuff.ID // scenario: this replica's block requests fail for the time being
 	silentView  int
 }
 
@@ -1140,6 +1141,9 @@ func protoCmd(args []string) error {
 			// crash/silent faults instead of Byzantine ones
 		}
 		fetch := func(by hotstuff.ID, h hotstuff.Hash) (*hotstuff.Block, bool) {
+			if by == r.fetchDeaf {
+				return r.fetchFrom(by, h, false)
+			}
 			return r.fetchFrom(by, h, rng.Intn(100) < r.fetchOK)
 		}
 		for _, x := range nodes {
@@ -1188,7 +1192,9 @@ func protoCmd(args []string) error {
 		if *only == "late-leader" && lmode == "fixed" {
 			lmode, r.lmode = "script", "script"
 		}
-		if (ri%6 == 5 || *only == "late-leader") && *only != "long-laggard" && !ff && lmode != "fixed" {
+		var deafL hotstuff.ID
+		deafLeft := -1
+		if (ri%6 == 5 || *only == "late-leader") && *only != "long-laggard" && *only != "deaf-laggard" && !ff && lmode != "fixed" {
 			// scenario library: "late leader" -- one replica leads a stretch of views and is cut off in every other one of
 			// them: the others enter the next view on a timeout certificate and only then see its proposal, which carries a
 			// certificate older than their view
@@ -1213,7 +1219,7 @@ func protoCmd(args []string) error {
 				nl = append(nl, int(r.lr.GetLeader(hotstuff.View(v))))
 			}
 			o.emit(obj{"op": "relead", "leaders": nl})
-		} else if *only == "long-laggard" {
+		} else if *only == "long-laggard" || *only == "deaf-laggard" {
 			// scenario library: "long laggard" -- one replica is cut off from the very start for a dozen views (the views it leads time
 			// out, so little or nothing is committed meanwhile); then another replica falls silent for good and the laggard is needed:
 			// it has to catch up on everything it missed, by fetching, and lead its views
@@ -1226,6 +1232,14 @@ func protoCmd(args []string) error {
 				c = hon[rng.Intn(len(hon))]
 			}
 			last := 10 + rng.Intn(5)
+			if *only == "deaf-laggard" {
+				// ... variant "deaf laggard": when the other replica has fallen silent, the laggard is reconnected, but what was held back
+				// for it is lost and for a while its block requests fail: it receives the timeouts of the others -- who are stuck and can
+				// only repeat them -- without being able to judge the certificates they carry.  Then the network heals.
+				scenario = "deaf-laggard"
+				last = 4 + rng.Intn(6)
+				deafL = l.ID
+			}
 			for v := 1; v <= last && v < len(isoPlan); v++ {
 				isoPlan[v] = int(l.ID)
 			}
@@ -1261,7 +1275,27 @@ func protoCmd(args []string) error {
 		}
 		for s := 0; s < *maxSteps && !ff; s++ {
 			if r.silentAfter != 0 && r.maxViewWithout(r.silentAfter) >= r.silentView {
-				break
+				if deafL == 0 {
+					break
+				}
+				if deafLeft < 0 {
+					deafLeft = 60 + rng.Intn(80)
+					var keep []envelope
+					for _, e := range r.net {
+						if e.from != deafL && e.to != deafL {
+							keep = append(keep, e)
+						}
+					}
+					r.net = keep
+					r.fetchDeaf = deafL
+					for v := range isoPlan {
+						isoPlan[v] = int(r.silentAfter)
+					}
+				}
+				if deafLeft--; deafLeft <= 0 {
+					r.fetchDeaf = 0
+					break
+				}
 			}
 			r.topUp()
 			// partitions, per view as in Twins: while the most advanced honest replica is in view v, the replica isoPlan[v]
